@@ -82,6 +82,28 @@ fn main() {
                 println!("{}", serde_json::Value::Object(out));
                 return;
             }
+            "--names" => {
+                // E0: pinned parameter / local names per function (contracts/pinned_names.json)
+                if let Ok(t) = std::fs::read_to_string(&args[i + 1]) {
+                    if let Ok(serde_json::Value::Object(m)) = serde_json::from_str::<serde_json::Value>(&t) { let _ = rewrite::PINNED_NAMES.set(m); }
+                }
+                i += 2;
+            }
+            "--pin-names" => {
+                // write the names every function under contract binds on the CURRENT tree (run when a contract is written)
+                let idx = index::Index::build(&format!("{}/src", repo));
+                let mut items: Vec<spec::Item> = vec![];
+                for s in &specs { items.extend(spec::parse_file(s)); }
+                let mut out = serde_json::Map::new();
+                for it in &items {
+                    if let spec::Item::Fn(fs) = it {
+                        let src = idx.lookup_fn(&fs.key, &fs.file);
+                        if let Some((p, l)) = rewrite::bound_names(&src.text) { out.insert(fs.key.clone(), serde_json::json!({"params": p, "lets": l})); }
+                    }
+                }
+                println!("{}", serde_json::to_string_pretty(&serde_json::Value::Object(out)).unwrap());
+                return;
+            }
             "--lenient" => { rewrite::LENIENT.store(true, std::sync::atomic::Ordering::Relaxed); i += 1; }
             other => die(&format!("unknown argument {}", other)),
         }
